@@ -137,6 +137,15 @@ func vServerSession(tok, payload []byte, key [4]byte) []byte {
 		return vSessProblem(obs, "bad-close-accepted")
 	}
 	obs = append(obs, cconn.out...)
+	// an empty ping and an empty close from the client: answered with the smallest frames there are
+	sconn0 := &vHalf{in: append(vMaskedFrame(9, true, key, nil), vMaskedFrame(8, true, key, nil)...)}
+	if _, _, err := wsutil.ReadClientData(sconn0); err == nil {
+		return vSessProblem(obs, "empty-close-not-reported")
+	}
+	if string(sconn0.out) != string([]byte{0x8a, 0x00, 0x88, 0x00}) {
+		obs = vSessProblem(obs, "empty-replies-differ")
+	}
+	obs = append(obs, sconn0.out...)
 	// a frame compressed and decompressed through the Helper all sessions share
 	cf, herr := vSharedHelper.CompressFrame(ws.NewTextFrame(append([]byte{}, payload...)))
 	if herr != nil {
@@ -302,5 +311,16 @@ func vClientSession(payload []byte) []byte {
 	}
 	obs = append(obs, fs[0].op)
 	obs = append(obs, fs[0].payload...)
+	// an empty ping and an empty close from the server: the replies are the smallest frames there
+	// are (masked, as the client must)
+	econn := &vHalf{in: []byte{0x89, 0x00, 0x88, 0x00}}
+	if _, _, err := wsutil.ReadServerData(econn); err == nil {
+		return vSessProblem(obs, "empty-close-not-reported")
+	}
+	fs, ok = vParse(econn.out)
+	if !ok || len(fs) != 2 || !fs[0].masked || !fs[1].masked {
+		return vSessProblem(obs, "empty-replies-error")
+	}
+	obs = append(obs, fs[0].op, fs[1].op)
 	return obs
 }
